@@ -44,6 +44,8 @@ func (w *World) Exec(st *Step) (viol *Violation) {
 		return w.execArray(st)
 	case "m.set", "m.get", "m.has", "m.remove":
 		return w.execMap(st)
+	case "m.setfail":
+		return w.execSetFail(st)
 	case "settype":
 		return w.execSetType(st)
 	case "count":
@@ -583,5 +585,42 @@ func (w *World) execDispose(st *Step) *Violation {
 		return w.viol("dispose", "disposing root #%d failed: %v", c.CID, err)
 	}
 	w.result("dispose")
+	return nil
+}
+
+// execSetFail: an update of an existing key whose key comparison fails with an injected error.
+// The request is rejected inside the library (after it obtained a digester); the model is unchanged.
+func (w *World) execSetFail(st *Step) *Violation {
+	c, h, v := w.target(st, true)
+	if c == nil || v != nil {
+		return v
+	}
+	km, ok := scalarOf(st.K)
+	if !ok || c.findKey(km) < 0 {
+		return nil
+	}
+	w.Ctl.Reset()
+	w.Ctl.FailAt["cmp"] = 1
+	_, err := h.(*atree.OrderedMap).Set(w.cmp, w.hip, w.valueOfKey(km), U64(1))
+	fired := w.Ctl.Fired["cmp"]
+	w.Ctl.Reset()
+	if fired > 0 {
+		w.Stats.Inc("fault.callback.cmp-in-set")
+		if err == nil {
+			return w.viol("res.map", "map #%d: Set whose key comparison failed returned no error", c.CID)
+		}
+	} else if err != nil {
+		return w.viol("res.map", "map #%d: Set failed without the injected fault firing: %v", c.CID, err)
+	} else {
+		// no comparison was needed?  then the update happened
+		idx := c.findKey(km)
+		old := c.Vals[idx]
+		c.Vals[idx] = MU64(1)
+		if ch := childOf(old); ch != nil {
+			w.dropHandles(ch)
+			w.Model.unregister(ch)
+		}
+	}
+	w.result("msetfail")
 	return nil
 }
